@@ -90,7 +90,9 @@ struct TableSpec {
     ord: u64,
     /// inert children: bit 0 `sortState`/`filterColumn` inside `autoFilter` (each with a `ref`); bit 1 no
     /// `autoFilter`; bit 2 `tableColumn` with `uniqueName`/`totalsRowFunction`/… attributes and formula
-    /// children; bit 3 no `tableStyleInfo`; bit 4 an `extLst`; bit 5 whitespace text between the children
+    /// children; bit 3 no `tableStyleInfo`; bit 4 an `extLst`; bit 5 whitespace text between the children;
+    /// bit 6 extensions nesting elements whose local names repeat outer ones (`x14:table` with the
+    /// Alternative Text after the columns, `x15:tableColumn(s)`, `x14/x15:autoFilter`, `filterColumn`)
     #[serde(default)]
     kids: u8,
 }
@@ -122,6 +124,10 @@ enum XlsItem {
 struct XlsSheetSpec {
     name: String,
     items: Vec<XlsItem>,
+    /// BoundSheet8 `dt` / substream kind: 0 worksheet, 1 macro sheet, 2 chart, 6 VBA module; every kind is a
+    /// sheet of `sheet_names()` and counts for the index of `worksheet_merge_cells_at`
+    #[serde(default)]
+    kind: u8,
 }
 
 #[derive(Clone, Debug, Serialize, Deserialize, PartialEq)]
@@ -590,6 +596,17 @@ fn build_xlsx(spec: &XlsxSpec) -> BuiltX {
                 evs.push(Ev::End(q(&pre, "sortCondition")));
                 evs.push(Ev::End(q(&pre, "sortState")));
             }
+            if t.kids & 64 != 0 {
+                // before the columns: an extension inside autoFilter nesting `autoFilter` / `filterColumn` again
+                evs.push(Ev::Start(q(&pre, "extLst"), vec![]));
+                evs.push(Ev::Start(q(&pre, "ext"), vec![("uri".into(), "{22222222-2222-4333-8444-555555555555}".into())]));
+                evs.push(Ev::Start("x14:autoFilter".into(), vec![("ref".into(), "Y1:Y9".into())]));
+                evs.push(Ev::Start("x14:filterColumn".into(), vec![("colId".into(), "1".into()), ("name".into(), "filterColumn".into())]));
+                evs.push(Ev::End("x14:filterColumn".into()));
+                evs.push(Ev::End("x14:autoFilter".into()));
+                evs.push(Ev::End(q(&pre, "ext")));
+                evs.push(Ev::End(q(&pre, "extLst")));
+            }
             evs.push(Ev::End(q(&pre, "autoFilter")));
             ws(&mut evs);
         }
@@ -627,10 +644,28 @@ fn build_xlsx(spec: &XlsxSpec) -> BuiltX {
             ));
             evs.push(Ev::End(q(&pre, "tableStyleInfo")));
         }
-        if t.kids & 16 != 0 {
+        if t.kids & (16 | 64) != 0 {
             evs.push(Ev::Start(q(&pre, "extLst"), vec![]));
             evs.push(Ev::Start(q(&pre, "ext"), vec![("uri".into(), "{504A1905-F514-4f6f-8877-14C23A59335A}".into()), ("name".into(), "ext".into())]));
+            if t.kids & 64 != 0 {
+                // Alternative Text: an element whose LOCAL name is `table` again, after the columns; further
+                // nested elements repeating the local names of outer ones (none of them declares anything)
+                evs.push(Ev::Start("x14:table".into(), vec![("altText".into(), "R&D totals".into()), ("altTextSummary".into(), "ref=A1:B2".into())]));
+                evs.push(Ev::End("x14:table".into()));
+            }
             evs.push(Ev::End(q(&pre, "ext")));
+            if t.kids & 64 != 0 {
+                evs.push(Ev::Start(q(&pre, "ext"), vec![("uri".into(), "{11111111-2222-4333-8444-555555555555}".into())]));
+                evs.push(Ev::Start("x15:tableColumns".into(), vec![("count".into(), "1".into())]));
+                evs.push(Ev::Start("x15:tableColumn".into(), vec![("id".into(), "99".into()), ("uniqueName".into(), "shadow".into())]));
+                evs.push(Ev::End("x15:tableColumn".into()));
+                evs.push(Ev::End("x15:tableColumns".into()));
+                evs.push(Ev::Start("x15:autoFilter".into(), vec![("ref".into(), "Z1:Z2".into())]));
+                evs.push(Ev::Start("x15:filterColumn".into(), vec![("colId".into(), "0".into())]));
+                evs.push(Ev::End("x15:filterColumn".into()));
+                evs.push(Ev::End("x15:autoFilter".into()));
+                evs.push(Ev::End(q(&pre, "ext")));
+            }
             evs.push(Ev::End(q(&pre, "extLst")));
         }
         ws(&mut evs);
@@ -1160,6 +1195,7 @@ fn eval_xls(spec: &XlsSpec, drv: &mut Driver) -> Outcome {
     let mut model_reqs = vec![];
     for sh in &spec.sheets {
         let mut xs = XlsSheet::new(&sh.name);
+        xs.kind = sh.kind;
         let mut recs: Vec<String> = vec![];
         for it in &sh.items {
             match it {
@@ -1488,7 +1524,7 @@ fn gen_xlsx(rng: &mut Rng) -> XlsxSpec {
             rr: if rng.chance(1, 40) { Some(rng.pick(&["A", "B2:A1", "C1:A5", "", "A1:B2:C3", "A5:A1", "7", "A1:A"]).to_string()) } else { None },
             alt: if rng.chance(1, 4) { Some(rng.pick(&["Table_legacy", "Other", "t", "Tabelle1"]).to_string()) } else { None },
             ord: if rng.chance(1, 2) { rng.next() | 1 } else { 0 },
-            kids: if rng.chance(1, 3) { 0 } else { rng.below(64) as u8 },
+            kids: if rng.chance(1, 3) { 0 } else { rng.below(128) as u8 },
         });
     }
     XlsxSpec { layout: if rng.chance(1, 8) { 0 } else { rng.next() | 1 }, sheets, tables, flat: ns == 1 && rng.chance(1, 5) }
@@ -1588,7 +1624,9 @@ fn gen_xls(rng: &mut Rng) -> XlsSpec {
             let pos = rng.below(items.len() as u64 + 1) as usize;
             items.insert(pos, XlsItem::R(0x001D, hex(&mc_payload(&[[1, 1, 2, 2]]))));
         }
-        sheets.push(XlsSheetSpec { name: names[i].to_string(), items });
+        // sheets of other kinds before / between the worksheets
+        let kind = if rng.chance(1, 4) { *rng.pick(&[1u8, 2, 2, 6]) } else { 0 };
+        sheets.push(XlsSheetSpec { name: names[i].to_string(), items, kind });
     }
     // the substreams need not be stored in tab order
     let order = if ns >= 2 && rng.chance(1, 2) {
@@ -1829,10 +1867,14 @@ fn corpus() -> Vec<String> {
         // folder inside the archive path and resolves against the package root (was a panic in load_tables)
         r#"xlsx {"layout":0,"sheets":[{"name":"Sheet1","cells":[[0,0,1],[1,0,2]],"merges":[{"r":[2,2,3,3],"f":0}]}],"tables":[{"sheet":0,"name":"Table1","r":[0,0,1,0],"hdr":1,"tot":null,"cols":["a"],"abs":false}],"flat":true}"#.into(),
         r#"xlsx {"layout":0,"sheets":[{"name":"Sheet1","cells":[[0,0,1],[1,0,2]],"merges":[]}],"tables":[{"sheet":0,"name":"Table1","r":[0,0,1,0],"hdr":1,"tot":null,"cols":["a"],"abs":true}],"flat":true}"#.into(),
+        // seeded change C17-m15: Alternative Text: `x14:table` (local name `table`) inside extLst after the columns
+        r#"xlsx {"layout":0,"sheets":[{"name":"Sheet1","cells":[[0,0,1],[1,0,2],[1,1,3]],"merges":[]}],"tables":[{"sheet":0,"name":"Table1","r":[0,0,1,1],"hdr":1,"tot":null,"cols":["a","b"],"abs":false,"kids":64}]}"#.into(),
         // several sheets, regions at the far corner, attribution
         r#"xlsx {"layout":0,"sheets":[{"name":"A","cells":[],"merges":[{"r":[1048575,16383,1048575,16383],"f":0},{"r":[0,0,1048575,16383],"f":0}]},{"name":"B","cells":[[3,3,7]],"merges":[]},{"name":"C","cells":[],"merges":[{"r":[5,26,9,702],"f":3}],"mc_empty":true}],"tables":[]}"#.into(),
         // seeded change C17-m11: substreams stored in another order than the tabs (each BoundSheet8 points at its own)
         r#"xls {"seed":0,"sheets":[{"name":"S1","items":[{"C":[0,0,1]},{"M":[[0,0,1,1]]}]},{"name":"S2","items":[{"M":[[2,2,3,3],[4,4,4,5]]}]},{"name":"S3","items":[{"C":[1,1,5]},{"M":[[6,0,6,255]]}]}],"order":[2,0,1]}"#.into(),
+        // seeded change C17-m14: a chart sheet before the worksheet: index n = the n-th sheet of sheet_names()
+        r#"xls {"seed":0,"sheets":[{"name":"Chart1","items":[],"kind":2},{"name":"S1","items":[{"C":[0,0,1]},{"M":[[0,0,1,1]]}]},{"name":"Mod","items":[],"kind":6},{"name":"S2","items":[{"M":[[2,2,3,3]]}]}]}"#.into(),
         // xls: two records, regions at IV65536
         r#"xls {"seed":0,"sheets":[{"name":"S1","items":[{"C":[0,0,1]},{"M":[[0,0,1,1],[65535,255,65535,255]]},{"C":[2,2,2]},{"M":[[3,0,3,255]]}]},{"name":"S2","items":[{"M":[]}]}]}"#.into(),
     ];
